@@ -219,9 +219,19 @@ type decoStore struct {
 	puts   int
 	gets   int
 	onPut  func(key, id, val []byte)
+	// failGet: injected read fault (disk error) for the next reads while it returns a non-nil error
+	failGet func(key []byte) error
 }
 
-func (d *decoStore) Get(k, id []byte) ([]byte, error) { d.gets++; return d.inner.Get(k, id) }
+func (d *decoStore) Get(k, id []byte) ([]byte, error) {
+	d.gets++
+	if d.failGet != nil {
+		if err := d.failGet(k); err != nil {
+			return nil, err
+		}
+	}
+	return d.inner.Get(k, id)
+}
 func (d *decoStore) Put(k, id, v []byte) error {
 	d.puts++
 	if d.onPut != nil {
